@@ -28,6 +28,10 @@ struct RunCtx
 	bool nontrivial = false;
 	bool failed = false;
 	Violation v;
+	// optional: when a run explores a fault space internally (fault enumeration), the failing fault attachment
+	// for op `refine_op`; the driver rewrites the plan with it before shrinking so that the replay file is explicit
+	int refine_op = -1;
+	std::vector<Fault> refine_faults;
 	// append to the event log (stable ids only; never raw pointers, clocks or PRNG draws)
 	void log(const char *fmt, ...) __attribute__((format(printf, 2, 3)));
 	void logs(const std::string &s);
@@ -90,6 +94,8 @@ struct Outcome
 	std::set<std::string> cov;
 	std::map<std::string, uint64_t> counters;
 	std::vector<std::string> lines;
+	int refine_op = -1;
+	std::vector<Fault> refine_faults;
 };
 // run one plan in this process
 Outcome execute_plan(Property &prop, const Plan &plan, bool capture = false);
